@@ -1,0 +1,42 @@
+//! Verification hooks, compiled only with `--cfg mahf_verif`.
+//!
+//! An optional [`StepObserver`] stored in the [`State`] is notified before and after every child of a
+//! [`Block`] and at the start and end of every pass of a [`Loop`].
+//! If no [`StepObserverSlot`] is present in the state, nothing happens.
+//!
+//! [`Block`]: crate::components::Block
+//! [`Loop`]: crate::components::Loop
+
+use better_any::{Tid, TidAble};
+
+use crate::{Component, CustomState, Problem, State};
+
+/// An event at a component boundary.
+pub enum StepEvent<'e, P: Problem> {
+    /// Emitted directly before (`before == true`) and after (`before == false`) a child of a block executes.
+    BlockChild {
+        before: bool,
+        block: usize,
+        child: usize,
+        component: &'e dyn Component<P>,
+    },
+    /// Emitted at the start (`start == true`) and end (`start == false`) of a loop pass.
+    LoopPass { start: bool, looop: usize },
+}
+
+/// Receives [`StepEvent`]s along with read access to the problem and state.
+pub trait StepObserver<P: Problem>: Send {
+    fn on_event(&mut self, event: StepEvent<'_, P>, problem: &P, state: &State<P>);
+}
+
+/// Optional state holding the [`StepObserver`].
+#[derive(Tid)]
+pub struct StepObserverSlot<'a, P: Problem + 'static>(pub Box<dyn StepObserver<P> + 'a>);
+
+impl<'a, P: Problem> CustomState<'a> for StepObserverSlot<'a, P> {}
+
+pub(crate) fn notify<'a, P: Problem>(event: StepEvent<'_, P>, problem: &P, state: &State<'a, P>) {
+    if let Ok(mut slot) = state.try_borrow_mut::<StepObserverSlot<'a, P>>() {
+        slot.0.on_event(event, problem, state);
+    }
+}
